@@ -134,7 +134,31 @@ def _nondet_calls(ctx, f: FunctionInfo):
 _ORDER_FREE = {"sorted", "len", "min", "max", "sum", "any", "all", "bool", "frozenset", "set"}
 
 
-def _set_constructions(f: FunctionInfo):
+def _param_used_order_free(ctx, callee_fn: FunctionInfo, pname: str) -> bool:
+    """every read of parameter `pname` in `callee_fn` is a membership test / an order-free consumer (one level, not re-bound)"""
+    root = callee_fn.node
+    parent = {}
+    for n in ast.walk(root):
+        for c in ast.iter_child_nodes(n):
+            parent[id(c)] = n
+    stores = [x for x in ast.walk(root) if isinstance(x, ast.Name) and x.id == pname and isinstance(x.ctx, ast.Store)]
+    loads = [x for x in ast.walk(root) if isinstance(x, ast.Name) and x.id == pname and isinstance(x.ctx, ast.Load)]
+    if stores:
+        return False
+    for x in loads:
+        up = parent.get(id(x))
+        if isinstance(up, ast.Compare) and x in up.comparators and all(isinstance(o, (ast.In, ast.NotIn)) for o in up.ops):
+            continue
+        if isinstance(up, ast.Call) and isinstance(up.func, ast.Name) and up.func.id in _ORDER_FREE - {"set", "frozenset"} and x in up.args:
+            continue
+        if isinstance(up, ast.Call) and isinstance(up.func, ast.Attribute) and up.func.value is x and \
+                up.func.attr in ("issubset", "issuperset", "isdisjoint", "__contains__"):
+            continue
+        return False
+    return True
+
+
+def _set_constructions(f: FunctionInfo, ctx=None):
     """set displays / comprehensions / set() calls whose *iteration order* can reach the output: a set that is only asked
     `x in s`, measured, or handed to an order-free consumer (sorted, len, min, max, sum, any, all) is not reported"""
     from ..types import _iter_own_nodes
@@ -155,6 +179,19 @@ def _set_constructions(f: FunctionInfo):
         if isinstance(up, ast.Call) and isinstance(up.func, ast.Attribute) and up.func.value is node and \
                 up.func.attr in ("difference", "union", "intersection", "symmetric_difference", "issubset", "issuperset", "isdisjoint"):
             return up.func.attr.startswith("is") or order_free_use(up)
+        if isinstance(up, ast.keyword):
+            up = parent.get(id(up))
+        if ctx is not None and isinstance(up, ast.Call) and not f.is_lambda:
+            # handed to a repository function that only asks `x in s` of that parameter
+            callees = ctx.cg.resolve_call(f, up)
+            if callees and all(c.kind == "fn" and c.fn is not None for c in callees):
+                for c in callees:
+                    params = c.params(ctx.p)
+                    binding, exact = bind_args(params, up) if params is not None else ({}, False)
+                    names = [k for k, v in binding.items() if v is node]
+                    if not exact or len(names) != 1 or not _param_used_order_free(ctx, c.fn, names[0]):
+                        return False
+                return True
         return False
 
     def harmless(node) -> bool:
@@ -202,7 +239,7 @@ def nondeterminism(ck):
                 continue
             ck.violation("C09.2", short(f) + ":" + name, where(f, c), f"nondeterministic API `{name}` on the output path",
                          found=ast.unparse(c)[:120], required="no run-dependent value on the path to the XMAP files")
-        for s in _set_constructions(f):
+        for s in _set_constructions(f, ctx):
             ck.violation("C09.2", short(f) + ":set", where(f, s), "a set is built on the output path: its iteration order "
                          "depends on hashing (AlignedPair.__hash__ includes the per-process `source` counter)",
                          found=ast.unparse(s)[:120], required="lists / dicts (insertion ordered) on the output path")
